@@ -170,7 +170,8 @@ def c18_case(args):
     binds = bindings_of(schema)
     desc = "; ".join(f"{n}(id={i}, bus={b!r})" for n, i, b in binds)
     structs = [n for n, _ in schema.structs if n in POOL]
-    feats = {"desc": desc, "bindings": len(binds), "bus_lengths": sorted({len(b) for _, _, b in binds if b is not None})}
+    feats = {"desc": desc, "bindings": len(binds), "bus_lengths": sorted({len(b) for _, _, b in binds if b is not None}),
+             "obligation": "static-wrapper", "all_widths_byte_multiples": True}     # keys the open findings' `where` may name
     base = {"schema_text": schema.text(), "property": "C18"}
     with Scratch() as d:
         ob = f"{desc}|compiles"
@@ -538,7 +539,7 @@ def c18_dyn_case(args):
                         continue
                     a, fa, bb, fb = out
                     reached.add((sn, "encode"))
-                    dyn_data = None
+                    dyn_data = predicted = None
                     if a != bb or (fa is None) != (fb is None):
                         viol, why = z3.BoolVal(True), f"static {a}{'' if fa is not None else ' no frame'}, dynamic {bb}{'' if fb is not None else ' no frame'}"
                     elif fa is None:
@@ -547,11 +548,14 @@ def c18_dyn_case(args):
                         da, db = fa[6], fb[6]
                         if not (isinstance(da, int) and isinstance(db, int)):
                             raise EngineLimit("dlc is symbolic")
-                        dyn_data = [llsym.bv(x, 8) for x in fb[7:7 + min(db, 8)]]
+                        # the open finding explains a difference only if the WHOLE dynamic frame is the static header with
+                        # the per-field byte-aligned payload: (bus, sid) of the static frame, dlc = its size, data = those bytes
+                        dyn_data = [llsym.bv(x, 8) for x in fb[:7 + min(db, 8)]]
+                        predicted = [llsym.bv(x, 8) for x in fa[:6]] + [z3.BitVecVal(len(aligned), 8)] + list(aligned)
                         n = 7 + max(min(da, 8), min(db, 8))
                         viol = z3.Not(z3.And(*[llsym.bv(x, 8) == llsym.bv(y, 8) for x, y in zip(fa[:n], fb[:n])]))
                         why = "frames differ (bus[4] sid[2] dlc data[dlc])"
-                    env_e = dict(env, dyn=dyn_data, field_aligned=aligned, zip=zip, len=len)
+                    env_e = dict(env, dyn=dyn_data, field_aligned=predicted if dyn_data is not None else aligned, zip=zip, len=len)
                     decide(eng, pc, viol, prop="C18", ob_id=ob, res=res, known=known, features=dict(feats, obligation="encode"),
                            env=env_e, make_replay=mk_enc, what=f"static vs reflection-loaded Can::Encode({sn!r}, v) on [{desc}]: {why}")
             except EngineLimit as e:
@@ -629,7 +633,7 @@ def c18_dyn_case(args):
                 reached.add(("any", "x"))
                 same = (a[0] == bb[0] and na == nb_)
                 decide(eng, pc, z3.BoolVal(False) if same else z3.Not(unjudged), prop="C18", ob_id=ob, res=res, known=known,
-                       features={"desc": desc, "obligation": "dispatch"}, env={}, make_replay=mk_any,
+                       features={"desc": desc, "obligation": "dispatch", "all_widths_byte_multiples": True}, env={}, make_replay=mk_any,
                        what=f"static vs reflection-loaded Can::Decode on [{desc}]: static {a} {na!r}, dynamic {bb} {nb_!r}")
         except EngineLimit as e:
             res["inconclusive"].append(f"{desc}|dynamic|any-frame: engine limit: {e}")
